@@ -50,6 +50,7 @@ def run(rep, tier, seed):
     rep.level = "proof"
     for fn in FN.values():
         C.check_anchor(rep, "manif::" + fn, "include/manif/algorithms/average.h", r"\b%s\(const Container" % fn)
+    items = []
     for k, name in enumerate(ROUTINES):
         errs = H[k].build(groups, native=True)
         for g in groups:
@@ -61,9 +62,14 @@ def run(rep, tier, seed):
                          {"failing_input_reproduced": True,
                           "demonstration": "std::vector<manif::%sd> v{...}; manif::%s(v);  does not compile" % (g if g != "R3" else "R3", FN[name])})
                 continue
-            check(rep, H[k], g, name, seed)
-            if name != "weighted":
-                stationarity(rep, H[k], g, name)
+            items.append((k, g, name))
+
+    def one(r, it):
+        k, g, name = it
+        check(r, H[k], g, name, seed)
+        if name != "weighted":
+            stationarity(r, H[k], g, name)
+    rep.parallel(items, one)
     rep.bounded.append({"name": "C16 domain", "detail": "N <= 3 points, max_iterations <= 2; convergence clauses not decided"})
 
 
